@@ -229,7 +229,7 @@ func c15Check(r *vkit.Run, in c15Input) {
 	}
 }
 
-var c15Msgs = []string{"m", "", "m\n", "m\r\n", "a\nb", "\n", "\xff", "m\r", " m \n", "\tm\t"}
+var c15Msgs = []string{"m", "", "m\n", "m\r\n", "a\nb", "\n", "\xff", "m\r", " m \n", "\tm\t", "m\n\n", "m\r\n\r\n", "m\n\r", "\r\r\n\n"}
 
 func c15Run(r *vkit.Run) {
 	idx := 0
